@@ -290,6 +290,60 @@ def main():
     all_accounted = (n_dis + sum(1 for o in obs if match_known(known, name=o.name) and o.status == "failed")) == len(obs) and not S.unsupported
     proof_ok = all_accounted and n_dis == len(obs)
     level = "proof" if proof_ok else "other"
+    scope_note = meta.get("scope_note")          # a check whose claimed scope is narrower than the property statement is never level `proof`
+    if scope_note:
+        level = "other"
+    # ---- thorough tier: independent second solver on a sample, and a rehearsal of the kept seeded changes
+    second = None
+    rehearsal = None
+    if a.tier == "thorough":
+        import random
+        from pyvc.solver import _cvc5_check
+        cand = [o for o in obs if o.status == "discharged" and o.backend in ("z3", "z3-tactic") and not isinstance(o.goal, bool)]
+        random.Random(seed).shuffle(cand)
+        second = {"solver": "cvc5 1.0.3", "checked": 0, "agree_unsat": 0, "unknown": 0, "disagree": []}
+        for o in cand[:250]:
+            hy = list(o.hyps) + list(S.global_axioms)
+            sv = z3.Solver()
+            sv.add(*hy)
+            sv.add(*axiom_instances(hy + [o.goal]))
+            sv.add(z3.Not(o.goal))
+            res = _cvc5_check(sv, 10000)
+            second["checked"] += 1
+            if res == "unsat":
+                second["agree_unsat"] += 1
+            elif res == "sat":
+                second["disagree"].append(o.name)
+            else:
+                second["unknown"] += 1
+        if second["disagree"]:
+            print(f"CHECKER-CRASH property={prop}: z3 proved but cvc5 refutes {second['disagree'][:3]}")
+            return 3
+        if not os.environ.get("PYVC_NO_REHEARSAL") and not os.environ.get("PYVC_SRC"):
+            import shutil
+            import tempfile
+            rehearsal = {"changes": {}, "missed": []}
+            sdir = os.path.join(HERE, "seeded")
+            for mid in sorted(x for x in (os.listdir(sdir) if os.path.isdir(sdir) else []) if x.startswith(prop + "_") and os.path.isfile(os.path.join(sdir, x, "patch.diff"))):
+                d = tempfile.mkdtemp(prefix="rehearse_")
+                try:
+                    shutil.copytree("/repo/src", os.path.join(d, "src"))
+                    pr = subprocess.run(["patch", "-p1", "-s", "-i", os.path.join(sdir, mid, "patch.diff")], cwd=d, capture_output=True, text=True)
+                    if pr.returncode:
+                        rehearsal["changes"][mid] = "patch no longer applies"
+                        continue
+                    env = dict(os.environ, PYVC_SRC=os.path.join(d, "src"), PYVC_EVIDENCE_DIR=os.path.join(".run", "evidence_mut", mid), PYVC_NO_REHEARSAL="1")
+                    r = subprocess.run([sys.executable, os.path.abspath(__file__), prop, "--tier", "quick"], cwd=HERE, env=env, capture_output=True, text=True, timeout=3600)
+                    ded = sum(1 for l in r.stdout.splitlines() if l.startswith("VIOLATION") and "bounded-standin:" not in l)
+                    sta = sum(1 for l in r.stdout.splitlines() if l.startswith("VIOLATION") and "bounded-standin:" in l)
+                    rehearsal["changes"][mid] = {"exit": r.returncode, "failed_deductive_clauses": ded, "standin_alarms": sta}
+                    if r.returncode != 1:
+                        rehearsal["missed"].append(mid)
+                        print(f"REHEARSAL-MISS property={prop} seeded={mid} exit={r.returncode} (the kept property-breaking change is not reported as a violation)")
+                except subprocess.TimeoutExpired:
+                    rehearsal["changes"][mid] = "timeout"
+                finally:
+                    shutil.rmtree(d, ignore_errors=True)
     samples = []
     for o in obs[:3] + [o for o in obs if o.kind == "ensures"][:3]:
         samples.append({"obligation": o.name, "kind": o.kind, "status": o.status, "backend": o.backend,
@@ -311,7 +365,8 @@ def main():
             "undecided_clauses": meta.get("undecided_clauses", []),
             "known_findings_matched": {kid: names for kid, (k, names) in seen_known.items()},
             "bounded": standin.get("summary") if standin else None,
-            "explanation": ("every obligation generated from the current /repo sources was discharged" if level == "proof" else
+            "second_solver": second, "seeded_change_rehearsal": rehearsal,
+            "explanation": (scope_note + " " if scope_note else "") + ("every obligation generated from the current /repo sources was discharged" if level == "proof" else
                             (f"every obligation was discharged except those of the recorded known findings {sorted(seen_known)} (genuine defects of the tree, see known_findings.json); not a proof of the whole property" if all_accounted else
                              "NOT a proof on this run: " + "; ".join([f"{len(violations)} failed obligations", f"{len(undecided)} undecided", f"{len(S.unsupported)} functions out of reach"]))),
             "evaluations": len(obs), "distinct_nontrivial": max(2, len({o.name for o in obs if not isinstance(o.goal, bool)})),
